@@ -211,6 +211,13 @@ _p('C16', 'model_checking', 'DESIGN.md 5/C16',
     "bounded: map insert with the allocation of each insert failing in turn (scripted allocator): -1, end iterator, state bit-identical, later operations work, no leak"],
    [NORM])
 
+_p('C10', 'model_checking', 'DESIGN.md 5/C10',
+   [BOUNDED_ASSUME, LIBC_ASSUME, REALLOC_NOTE, SIZE_ASSUME, HIST_ASSUME,
+    "proved (unbounded, both character widths, empty string / string with storage; vector.c inlined down to realloc): substr_prep (abort iff pos >= size, count truncated for every count), __resize (n characters + NUL or abort, prefix kept), prep_insert (abort iff pos > size; size + len or abort; prefix kept, suffix shifted; memmove ranges inside the storage), erase (prefix kept, suffix shifted down, terminated), at, str; memcpy/memmove are contract models",
+    "bounded: reference-string comparison after every edit of every scenario over base words \"\", \"a\", \"ab\" (thorough: + \"bab\") x inserted words x every position: set, insert (string / C string / repeated char), append, substr and erase with counts 0,1,2,SIZE_MAX-1,SIZE_MAX, resize down/up, swap, clear; find_ch/find_str/compare against reference implementations of the C library functions",
+    "insert_ch / insert_str_n / substr / find_* have no unbounded top-level contract of their own (their callees substr_prep, __resize, prep_insert do); they are covered by the bounded group"],
+   [])
+
 NOT_APPLICABLE = {
     'C06': "every-thread-interleaving refcounting: CBMC's contract instrumentation (DFCC) is sequential; a function contract relates one call's pre- and post-state and cannot quantify over schedules. The sequential bookkeeping is covered by C05.",
     'C18': "header/link usability is a property of preprocessor and linker configurations (symbol multiplicity across translation units); no function contract expresses it and goto-cc is not the project's linker.",
@@ -218,6 +225,7 @@ NOT_APPLICABLE = {
 
 BTECH = "contract-based verification with CBMC 6.11: the representation invariant and abstract view asserted around the real operations on concretely enumerated small structures (bounded, --unwinding-assertions), DFCC step contracts where built"
 TEXT = {
+    'C10': ("Unbounded contracts on the string primitives every edit goes through (length clamping for every count, exact growth or abort, NUL termination, prefix/suffix preservation by ghost indices, all memmove/memcpy ranges inside the storage for every length) for both character widths, plus a bounded reference-string comparison of whole edit sequences including the SIZE_MAX counts and the C-library agreement of find/compare.", "contract-based verification with CBMC 6.11: DFCC function contracts on _string.c with vector.c inlined; bounded reference-string checks"),
     'C03': ("Array level proved for every table size (sweep invariant with a ghost bucket index, all accesses in bounds, completion only after the last old bucket); element level bounded: after every operation of every scenario in scope each live element is found by key, erased ones are not, same-key elements are offered at most once, size matches, every node sits in a bucket allowed by the old or pending geometry.", BTECH + "; DFCC function + loop contracts for the bucket array"),
     'C04': ("Bucket coverage of foreach/foreach_const/clear proved for every table state incl. pending grow/shrink; per-element exactly-once, early stop, erasing callback and reuse after clear are bounded over ten table states.", BTECH + "; DFCC function + loop contracts for the bucket walk"),
     'C08': ("Bounded: a reference model (present / stored key / stored value per key) is compared with the map after every operation of every script in scope, including duplicate inserts through a different key pointer, erase by iterator, clear with leak / double-free / write-after-free audit.", BTECH),
